@@ -199,7 +199,7 @@ impl RustCodeGenerator {
                         EncodingOrdering::Sort => "set",
                     },
                     *tag,
-                    extension_after.map(|index| fields[index].name().to_string()),
+                    extension_after.map(|index| Self::rust_field_name(fields[index].name(), true)),
                     &[],
                 ));
                 Self::add_struct(
@@ -213,7 +213,9 @@ impl RustCodeGenerator {
                 scope.raw(&Self::asn_attribute(
                     "enumerated",
                     plain.tag(),
-                    plain.extension_after_variant().cloned(),
+                    plain
+                        .extension_after_variant()
+                        .map(|v| Self::rust_variant_name(v)),
                     &[],
                 ));
                 Self::add_enum(
@@ -226,7 +228,8 @@ impl RustCodeGenerator {
                 scope.raw(&Self::asn_attribute(
                     "choice",
                     data.tag(),
-                    data.extension_after_variant().map(|v| v.name().to_string()),
+                    data.extension_after_variant()
+                        .map(|v| Self::rust_variant_name(v.name())),
                     &[],
                 ));
                 Self::add_data_enum(self.new_enum(scope, name, false), name, data)
